@@ -126,7 +126,10 @@ func FromGNMITypedValue(v *gnmi.TypedValue) *sdcpb.TypedValue {
 		}
 	case *gnmi.TypedValue_DecimalVal:
 		return &sdcpb.TypedValue{
-			Value: &sdcpb.TypedValue_DoubleVal{DoubleVal: v.GetDoubleVal()},
+			Value: &sdcpb.TypedValue_DecimalVal{DecimalVal: &sdcpb.Decimal64{
+				Digits:    v.GetDecimalVal().GetDigits(),
+				Precision: v.GetDecimalVal().GetPrecision(),
+			}},
 		}
 	case *gnmi.TypedValue_FloatVal:
 		return &sdcpb.TypedValue{
